@@ -83,11 +83,13 @@ package l1infotreesync
 // under the last root, or a leaf that differs (a storage fault is an error, never "new")
 //@   ensures[new-means-empty-tree-absent-leaf-or-different-leaf] (result1 == nil && result0) ==> rootLastIdx(p.rollupExitTree.Tree) == -1 || exists(h, 1, 33, !rhtHas(p.rollupExitTree.Tree)[desc(rhtL(p.rollupExitTree.Tree), rhtR(p.rollupExitTree.Tree), rootHash(p.rollupExitTree.Tree)[rootLastIdx(p.rollupExitTree.Tree)], uint32(event.RollupID - 1), h)]) || desc(rhtL(p.rollupExitTree.Tree), rhtR(p.rollupExitTree.Tree), rootHash(p.rollupExitTree.Tree)[rootLastIdx(p.rollupExitTree.Tree)], uint32(event.RollupID - 1), 0) != event.ExitRoot
 //@   ensures[result-only-without-error] result1 != nil ==> !result0
+//@   ensures[never-the-syncers-inconsistency-error] plainErr(result1)
 //@   ensures[an-empty-tree-or-an-absent-leaf-is-not-an-error] result1 != nil ==> !isErr(result1, db.ErrNotFound)
 
 //@ extern github.com/russross/meddler.Insert@l1infotreesync.(*processor).processVerifyBatches (db, table, src)
 //@   modifies stmtFail
 //@   ensures stmtFail == old(stmtFail) + ite(result == nil, 0, 1)
+//@   ensures plainErr(result)
 
 //@ func (p *processor) processVerifyBatches (p, tx, blockNumber, event)
 //@   props C11
@@ -96,6 +98,7 @@ package l1infotreesync
 //@   modifies rootHas(p.rollupExitTree.Tree), rootHash(p.rollupExitTree.Tree), rootBlock(p.rollupExitTree.Tree), rootPos(p.rollupExitTree.Tree), rootLastIdx(p.rollupExitTree.Tree), rhtHas(p.rollupExitTree.Tree), rhtL(p.rollupExitTree.Tree), rhtR(p.rollupExitTree.Tree), leafNow(p.rollupExitTree), stmtFail, upsertCalls, event.BlockNumber, event.RollupExitRoot
 //@   ensures[rht-content-addressed] rhtOK(rhtHas(p.rollupExitTree.Tree), rhtL(p.rollupExitTree.Tree), rhtR(p.rollupExitTree.Tree))
 //@   ensures[success-means-stored] result == nil ==> stmtFail == old(stmtFail)
+//@   ensures[never-the-syncers-inconsistency-error] plainErr(result)
 //@   ensures[zero-root-ignored] (event != nil && tx != nil && event.ExitRoot == ZeroHash) ==> result == nil && leafNow(p.rollupExitTree) == old(leafNow(p.rollupExitTree)) && rhtHas(p.rollupExitTree.Tree) == old(rhtHas(p.rollupExitTree.Tree)) && rootHas(p.rollupExitTree.Tree) == old(rootHas(p.rollupExitTree.Tree))
 //@   ensures[written-at-the-rollup-position] (result == nil && upsertCalls == old(upsertCalls) + 1) ==> leafNow(p.rollupExitTree) == upd(old(leafNow(p.rollupExitTree)), uint32(event.RollupID - 1), event.ExitRoot) && event.BlockNumber == blockNumber && desc(rhtL(p.rollupExitTree.Tree), rhtR(p.rollupExitTree.Tree), event.RollupExitRoot, uint32(event.RollupID - 1), 0) == event.ExitRoot
 //@   ensures[at-most-one-write] upsertCalls == old(upsertCalls) || upsertCalls == old(upsertCalls) + 1
@@ -128,7 +131,7 @@ package l1infotreesync
 //@ extern (*database/sql.Row).Scan@l1infotreesync.(*processor).getLastIndex (r, dest)
 //@   requires len(dest) == 1 && typeIs(dest[0], *uint32) && cast(dest[0], *uint32) != nil
 //@   modifies *cast(dest[0], *uint32)
-//@   ensures result != errvar("db.ErrNotFound")
+//@   ensures result != errvar("db.ErrNotFound") && plainErr(result)
 //@   ensures result == nil ==> l1LastIndex >= 0 && *cast(dest[0], *uint32) == l1LastIndex
 //@   ensures (result != nil && isErr(result, sql.ErrNoRows)) ==> l1LastIndex == -1
 //@   ensures (result != nil && !isErr(result, sql.ErrNoRows)) ==> !isErr(result, errvar("db.ErrNotFound"))
@@ -139,15 +142,18 @@ package l1infotreesync
 //@   modifies nothing
 //@   ensures[the-last-position] result1 == nil ==> result0 == l1LastIndex && l1LastIndex >= 0
 //@   ensures[not-found-means-no-leaf] (result1 != nil && isErr(result1, db.ErrNotFound)) ==> l1LastIndex == -1
+//@   ensures[never-the-syncers-inconsistency-error] plainErr(result1)
 
 //@ func processEventInitL1InfoRootMap (tx, blockNumber, event)
 //@   trusted
 //@   modifies stmtFail
 //@   ensures stmtFail == old(stmtFail) + ite(result == nil, 0, 1)
+//@   ensures plainErr(result)
 
 //@ extern github.com/russross/meddler.Insert@l1infotreesync.(*processor).ProcessBlock (db, table, src)
 //@   modifies stmtFail
 //@   ensures stmtFail == old(stmtFail) + ite(result == nil, 0, 1)
+//@   ensures plainErr(result)
 
 //@ func (p *processor) ProcessBlock (p, ctx, block)
 //@   props C07 C14 C11
@@ -156,11 +162,11 @@ package l1infotreesync
 //@   requires lastTx < heapTop && len(block.Events) < 4294967295
 //@   requires rhtOK(rhtHas(p.l1InfoTree.Tree), rhtL(p.l1InfoTree.Tree), rhtR(p.l1InfoTree.Tree)) && rhtOK(rhtHas(p.rollupExitTree.Tree), rhtL(p.rollupExitTree.Tree), rhtR(p.rollupExitTree.Tree))
 //@   modifies heap
-//@   ensures[halted-refuses] old(p.halted) ==> result == sync.ErrInconsistentState && lastTx == old(lastTx) && p.halted
+//@   ensures[halted-refuses] old(p.halted) ==> isErr(result, sync.ErrInconsistentState) && lastTx == old(lastTx) && p.halted
 //@   ensures[all-or-nothing] (!old(p.halted) && lastTx != old(lastTx)) ==> ((result == nil ==> txState(lastTx) == 1) && (result != nil ==> txState(lastTx) == 2))
 //@   ensures[no-transaction-no-success] (!old(p.halted) && lastTx == old(lastTx)) ==> result != nil
-//@   ensures[halts-only-with-inconsistency-error] p.halted != old(p.halted) ==> p.halted && result == sync.ErrInconsistentState
-//@   ensures[inconsistency-report-means-halted] result == sync.ErrInconsistentState ==> p.halted
+//@   ensures[halts-only-with-inconsistency-error] p.halted != old(p.halted) ==> p.halted && isErr(result, sync.ErrInconsistentState)
+//@   ensures[inconsistency-report-means-halted] isErr(result, sync.ErrInconsistentState) ==> p.halted
 //@   ensures[committed-only-if-every-statement-succeeded] result == nil ==> stmtFail == old(stmtFail)
 //@   ensures[leaf-indices-continue-the-stored-sequence] (result == nil && leafCalls != old(leafCalls)) ==> lastLeafIdx == (l1LastIndex + (leafCalls - old(leafCalls))) % 4294967296 && l1LastIndex >= -1
 //@   loop 0 invariant p.halted == old(p.halted) && !p.halted && p.log == old(p.log) && p.log != nil && p.l1InfoTree == old(p.l1InfoTree) && p.l1InfoTree != nil && p.l1InfoTree.Tree != nil && len(p.l1InfoTree.zeroHashes) == 33 && p.rollupExitTree == old(p.rollupExitTree) && p.rollupExitTree != nil && p.rollupExitTree.Tree != nil && len(p.rollupExitTree.zeroHashes) == 33 && p.l1InfoTree.Tree != p.rollupExitTree.Tree
